@@ -174,7 +174,22 @@ func (t *Term) RenameVars() []VarDecl {
 	return vars
 }
 
+// Keep marks a variable that RenameVars must leave alone (its NAME is what
+// the case is about).
+const Keep = "keep-name"
+
+func KeptVar(name string, ty Ty) *Term { return &Term{K: KVar, Name: name, Ty: ty, Val: Keep} }
+
 func (t *Term) rename(vars *[]VarDecl) {
+	if t.K == KVar && t.Val == Keep {
+		for _, v := range *vars {
+			if v.Name == t.Name {
+				return
+			}
+		}
+		*vars = append(*vars, VarDecl{t.Name, t.Ty})
+		return
+	}
 	if t.K == KVar {
 		pfx := [...]string{"b", "n", "s", "li", "ls", "x"}[t.Ty]
 		t.Name = fmt.Sprintf("%s%d", pfx, len(*vars))
